@@ -10,21 +10,28 @@
 (* executed on the real code and validated by TempListTrace / TempTrace.   *)
 (***************************************************************************)
 EXTENDS TempStackList, Json
-CONSTANT Free           \* number of released stacks in the list at the start
+CONSTANT Free,          \* number of released stacks in the list at the start
+         Getters,       \* threads that call get_temporary_stack() in the concurrent block
+         Releasers      \* threads that hold a stack at the start and destroy their initializer in the block
 VARIABLE plan
-GenInit == /\ first = Free /\ next = [n \in Nodes |-> IF n <= Free /\ n > 1 THEN n - 1 ELSE NULL]
-           /\ inuse = [n \in Nodes |-> FALSE] /\ created = Free /\ destroyed = FALSE
-           /\ ts = [t \in Threads |-> NULL] /\ det = [t \in Threads |-> FALSE]
+\* nodes 1..Free are free; node Free+i is held by the i-th releaser (in ascending thread order)
+RIdx(t) == Cardinality({u \in Releasers : u <= t})
+NHeld == Cardinality(Releasers)
+GenInit == /\ first = Free + NHeld /\ next = [n \in Nodes |-> IF n <= Free + NHeld /\ n > 1 THEN n - 1 ELSE NULL]
+           /\ inuse = [n \in Nodes |-> n > Free /\ n <= Free + NHeld] /\ created = Free + NHeld /\ destroyed = FALSE
+           /\ ts = [t \in Threads |-> IF t \in Releasers THEN Free + RIdx(t) ELSE NULL]
+           /\ det = [t \in Threads |-> t \in Releasers]
            /\ pc = [t \in Threads |-> "idle"] /\ cur = [t \in Threads |-> NULL]
            /\ alive = [t \in Threads |-> TRUE] /\ ops = [t \in Threads |-> 0] /\ sawfree = [t \in Threads |-> FALSE]
            /\ nx = [t \in Threads |-> NULL] /\ lnk = [t \in Threads |-> NULL]
            /\ plan = <<>>
 \* (the end-of-list test of find_unused is a step of the model that touches no shared variable: it is
 \* not a scheduling decision)
-GenNext == \E t \in Threads \ {Main} :
+GenNext == \/ \E t \in Getters :
               \/ (Get(t) /\ ts[t] = NULL /\ plan' = Append(plan, t))
               \/ (Find(t) /\ plan' = IF cur[t] = NULL THEN plan ELSE Append(plan, t))
               \/ ((NewLoad(t) \/ PushCas(t)) /\ plan' = Append(plan, t))
+           \/ \E t \in Releasers : InitDtor(t) /\ plan' = Append(plan, t)
 GenSpec == GenInit /\ [][GenNext]_<<vars, plan>>
 GenView == vars
 Emit == PrintT(<<"BEHAVIOUR", ToJson(plan')>>)
